@@ -4,7 +4,9 @@ correspondence: generated documents loaded with cellmlmanip.load_model vs coq/Mo
                 (names, units, initial values, cmeta ids, assigned_to), equation set keyed by left-hand side with the
                 variables / derivatives each right-hand side mentions, conversion factors, constants; the two-component
                 interface documents (9 x 9 x 4, both orientations)
-oracle:         an independent reference semantics of the DOCUMENT (tools/loader_gen.ref_solve: every component
+oracle:         the loaded model must be a closed equation system (every variable on a right-hand side is defined, a
+                state or the free variable; Model.graph and get_equations_for succeed) in which every document
+                variable has a value; an independent reference semantics of the DOCUMENT (tools/loader_gen.ref_solve: every component
                 evaluated over its own variables, every number and variable read as a physical quantity, both ends of a
                 connection the same quantity) against the numeric value of every variable computed from the loaded
                 model alone after units.convert_expression_recursively(eq, None), at 3 random states
@@ -165,7 +167,8 @@ def run(ctx):
     ctx.rule = ('valid documents from tools/loader_gen.py: forests of 2-7 components of depth <= 3, 1-4 own variables each, '
                 'values routed over 1-4 hops through public/private in/out, component_1/2 and variable_1/2 randomly '
                 'swapped, shuffled file order, units of equal dimension and different scale (volt/mV/uV, second/ms, '
-                'dimensionless/percent, a user base unit and its kilo-multiple), assignments over + - * / ** exp, ODEs, '
+                'dimensionless/percent, a user base unit and its kilo-multiple, areas m2 / 0.5 m2 / 0.25 (cm)2 that combine '
+                'multiplier, prefix and exponent), assignments over + - * / ** exp, ODEs, '
                 'derivatives on right-hand sides, initial-value constants, cmeta ids; every variable compared at 3 random '
                 'states; the 9x9x4 two-component interface documents in both orientations (quick: 60 of 324); a stratum '
                 'with floor / ceiling / rem (known finding F14); non-trivial = has a unit-changing connection')
